@@ -71,7 +71,7 @@ Inductive stages (i : input) (mf : emap) : Prop :=
   (E4 : (if i_emptydev i then Ok m3 else static_dev (i_tree i) m3) = Ok m4)
   (E5 : run_ops (i_tree i) magic_ops m4 = Ok m5)
   (E7 : run_ops (i_tree i) stddir_ops (exclude (unstaged all m1) m5) = Ok m7)
-  (E9 : run_ops (i_tree i) (script_ops (i_script i)) (add_missing_dirs m7) = Ok m9)
+  (E9 : run_ops (i_tree i) (user_script i) (add_missing_dirs m7) = Ok m9)
   (Ef : mf = add_missing_dirs m9).
 
 Lemma stage_map_stages i mf : stage_map i = Ok mf -> stages i mf.
@@ -85,7 +85,7 @@ Proof.
   destruct (if i_emptydev i then Ok m3 else static_dev (i_tree i) m3) as [m4| |] eqn:E4; [|discriminate|discriminate].
   destruct (run_ops (i_tree i) magic_ops m4) as [m5| |] eqn:E5; [|discriminate|discriminate].
   destruct (run_ops (i_tree i) stddir_ops (exclude (unstaged all m1) m5)) as [m7| |] eqn:E7; [|discriminate|discriminate].
-  destruct (run_ops (i_tree i) (script_ops (i_script i)) (add_missing_dirs m7)) as [m9| |] eqn:E9; [|discriminate|discriminate].
+  destruct (run_ops (i_tree i) (user_script i) (add_missing_dirs m7)) as [m9| |] eqn:E9; [|discriminate|discriminate].
   injection H as <-. exact (Stages i _ sel all m1 m2 m3 m4 m5 m7 m9 E0 E1 Ea E2 E3 E4 E5 E7 E9 eq_refl).
 Qed.
 
@@ -110,7 +110,7 @@ Proof. unfold static_dev, devsetup_ops, ext_lines. reflexivity. Qed.
 Record good_input (i : input) : Prop := MkGI {
   gi_tree : Forall good (keys (i_tree i));
   gi_contents : forall ns, all_contents (selected (i_pkgs i)) = Ok ns -> Forall good ns;
-  gi_script : forall li, In (OAdd li) (script_ops (i_script i)) -> li_wild li = false -> good (li_name li) }.
+  gi_script : forall li, In (OAdd li) (user_script i) -> li_wild li = false -> good (li_name li) }.
 
 Lemma targets_wild_in_tree t li k : In k (targets_wild t li) -> In k (keys t).
 Proof.
@@ -182,7 +182,7 @@ Lemma stages_good9 : forall sel all m1 m2 m3 m4 m5 m7 m9,
   (if i_emptydev i then Ok m3 else static_dev t m3) = Ok m4 ->
   run_ops t magic_ops m4 = Ok m5 ->
   run_ops t stddir_ops (exclude (unstaged all m1) m5) = Ok m7 ->
-  run_ops t (script_ops (i_script i)) (add_missing_dirs m7) = Ok m9 ->
+  run_ops t (user_script i) (add_missing_dirs m7) = Ok m9 ->
   Forall good (keys m7) /\ Forall good (keys m9).
 Proof.
   intros sel all m1 m2 m3 m4 m5 m7 m9 E_sel E1 E2 E3 E4 E5 E7 E9.
